@@ -360,15 +360,15 @@ def blockMove (inc : Bool) : Ex Unit := do
     let c := { c with RA := ra, RAl := lo8 ra, RAh := hi8 ra }
     if ra != 0xFFFF then { c with stepPC := 0 } else c
 
-def interruptLike (vecE vecN : U16) (orB : Bool) : Ex Unit := do
-  let c ← get
+/-- BRK / COP up to the vector fetch (the emulation-mode cycle correction is applied by `interruptLike`) -/
+def interruptBody (vecE vecN : U16) (orB : Bool) (c : Regs) : Ex Unit := do
   if c.E then
     push16 (c.PC + 2)
     let c ← get
     push (if orB then flagsByte c ||| 0x10 else flagsByte c)
     modify fun c => { c with I := true, D := false, RK := 0 }
     let pc ← nRead16_cross 0 vecE
-    modify fun c => { c with PC := pc, Cycles := c.Cycles - 1 }
+    modify fun c => { c with PC := pc }
   else
     push c.RK
     push16 (c.PC + 2)
@@ -377,7 +377,26 @@ def interruptLike (vecE vecN : U16) (orB : Bool) : Ex Unit := do
     modify fun c => { c with I := true, D := false, RK := 0 }
     let pc ← nRead16_cross 0 vecN
     modify fun c => { c with PC := pc }
-  modify fun c => { c with stepPC := 0 }
+
+def interruptLike (vecE vecN : U16) (orB : Bool) : Ex Unit := do
+  let c ← get
+  interruptBody vecE vecN orB c
+  modify fun c' => { c' with stepPC := 0, Cycles := if c.E then c'.Cycles - 1 else c'.Cycles }
+
+/-- RTI up to the last pull (E is not changed by `SetFlags`) -/
+def rtiBody (e : Bool) : Ex Unit := do
+  if e then
+    let f ← pull
+    modify (setFlags f)
+    let pc ← pull16
+    modify fun c => { c with PC := pc }
+  else
+    let f ← pull
+    modify (setFlags f)
+    let pc ← pull16
+    modify fun c => { c with PC := pc }
+    let k ← pull
+    modify fun c => { c with RK := k }
 
 /-- the accumulator as a 16-bit source (TAX/TAY/TCD/TCS) -/
 def srcC (c : Regs) : U16 := if c.M then mk16 c.RAh c.RAl else c.RA
@@ -631,19 +650,8 @@ def runP : Proc → Ex Unit
     else let v ← pull16; modify fun c => setZN16 v { c with RY := v }
   | .rti => do
     let c ← get
-    if c.E then
-      let f ← pull
-      modify (setFlags f)
-      let pc ← pull16
-      modify fun c => { c with PC := pc, Cycles := c.Cycles - 1 }
-    else
-      let f ← pull
-      modify (setFlags f)
-      let pc ← pull16
-      modify fun c => { c with PC := pc }
-      let k ← pull
-      modify fun c => { c with RK := k }
-    modify fun c => { c with stepPC := 0 }
+    rtiBody c.E
+    modify fun c' => { c' with stepPC := 0, Cycles := if c.E then c'.Cycles - 1 else c'.Cycles }
   | .rtl => do
     let pc ← pull16
     modify fun c => { c with PC := pc + 1 }
@@ -845,6 +853,20 @@ def adjOf (v : Variant) (opb : U8) : CycAdj :=
   let t := cycTables v
   ⟨t.1.getD opb.toNat 0, t.2.1.getD opb.toNat 0, t.2.2.1.getD opb.toNat 0, t.2.2.2.getD opb.toNat 0⟩
 
+/-- the table-driven cycle adjustments, and the hand-over of the decoded operand location (`StepInfo`) -/
+def adjustRegs (row : RowSem) (t : CycAdj) (pageCrossed : Bool) (ea : Nat) (addr : U16) (c : Regs) : Regs :=
+  let c := if c.M then { c with Cycles := c.Cycles - BitVec.ofNat 8 t.decM } else c
+  let c := if c.X then
+      let c := { c with Cycles := c.Cycles - BitVec.ofNat 8 t.decX }
+      if pageCrossed then { c with Cycles := c.Cycles + BitVec.ofNat 8 t.incPage } else c
+    else c
+  let c := if c.RD &&& 0x00FF != 0 then { c with Cycles := c.Cycles + BitVec.ofNat 8 t.incDL } else c
+  { c with EA := ea % 16777216, Addr := addr, Mode := row.mode }
+
+/-- the end of `Step`: account the cycles, advance the PC -/
+def finishRegs (c : Regs) : Regs :=
+  { c with AllCycles := c.AllCycles + c.Cycles.setWidth 64, PC := c.PC + c.stepPC }
+
 /-- `Step()` with the interrupt latch idle, over abstract decode tables -/
 def stepWith (sem : U8 → RowSem) (adj : U8 → CycAdj) : Ex Unit := do
   modify fun c => { c with PPC := c.PC, PRK := c.RK }
@@ -854,16 +876,9 @@ def stepWith (sem : U8 → RowSem) (adj : U8 → CycAdj) : Ex Unit := do
   let t := adj opb
   modify fun c => { c with stepPC := BitVec.ofNat 16 row.size, Cycles := BitVec.ofNat 8 row.cycles }
   let (addr, ea, pageCrossed) ← addressing row.mode
-  modify fun c =>
-    let c := if c.M then { c with Cycles := c.Cycles - BitVec.ofNat 8 t.decM } else c
-    let c := if c.X then
-        let c := { c with Cycles := c.Cycles - BitVec.ofNat 8 t.decX }
-        if pageCrossed then { c with Cycles := c.Cycles + BitVec.ofNat 8 t.incPage } else c
-      else c
-    let c := if c.RD &&& 0x00FF != 0 then { c with Cycles := c.Cycles + BitVec.ofNat 8 t.incDL } else c
-    { c with EA := ea % 16777216, Addr := addr, Mode := row.mode }
+  modify (adjustRegs row t pageCrossed ea addr)
   runP row.proc
-  modify fun c => { c with AllCycles := c.AllCycles + c.Cycles.setWidth 64, PC := c.PC + c.stepPC }
+  modify finishRegs
 
 /-- `Step()` of one interpreter; the Go result pair is (Cycles, Stopped) of the new state -/
 def step (v : Variant) : Ex Unit := stepWith (semOf v) (adjOf v)
